@@ -2222,18 +2222,24 @@ class Parameters:
         if running_task is None:
             self_.self._param__private.async_refs[pname] = current_task
         elif current_task is not running_task:
-            self_.self._param__private.async_refs[pname].cancel()
+            self_.self._param__private.async_refs.pop(pname).cancel()
+            self_.self._param__private.async_refs[pname] = current_task
         try:
             if isinstance(awaitable, types.AsyncGeneratorType):
                 async for new_obj in awaitable:
                     with _syncing(self_.self, (pname,)):
                         self_.update({pname: new_obj})
             else:
-                with _syncing(self_.self, (pname,)):
-                    try:
-                        self_.update({pname: await awaitable})
-                    except Skip:
-                        pass
+                try:
+                    new_obj = await awaitable
+                except Skip:
+                    pass
+                else:
+                    with _syncing(self_.self, (pname,)):
+                        try:
+                            self_.update({pname: new_obj})
+                        except Skip:
+                            pass
         finally:
             # Ensure we clean up but only if the task matches the currrent task
             if self_.self._param__private.async_refs.get(pname) is current_task:
